@@ -21,6 +21,14 @@ func (x *Exec) evalAs(e ast.Expr, env *Env, want types.Type) Term {
 			z := x.zero(want)
 			return z
 		}
+		if t.Sort != ws && t.Sort != "" && strings.HasPrefix(string(ws), "U_") {
+			t = x.coerce(t, ws)
+			if t.Sort != ws {
+				// e.g. a concrete value stored in an interface-typed slot: injective-unknown embedding
+				t = x.opaqueFrom(t, ws)
+				t.GoT = want
+			}
+		}
 	}
 	return t
 }
